@@ -272,7 +272,13 @@ impl Prop for MlpgDense {
                 let msd = if vmode == 0 {
                     f64::MAX
                 } else if voiced {
-                    threshold + (1.0 - threshold) * t.uniform(0.01, 1.0) + 1e-9
+                    // a voiced state is one whose weight exceeds the threshold - by a little, by
+                    // a lot, or with the value that marks "always voiced" in non-MSD streams
+                    match t.weighted(&[12, 1, 1]) {
+                        0 => threshold + (1.0 - threshold) * t.uniform(0.01, 1.0) + 1e-9,
+                        1 => 1.0,
+                        _ => f64::MAX,
+                    }
                 } else {
                     threshold * t.unit()
                 };
